@@ -854,13 +854,33 @@ def client_readback_stage(c):
     hs = [clients.Study(vizier_client.VizierClient('owners/o/studies/s', 'w%d' % w, sv)) for w in range(c.rng.choice([2, 2, 3]))]
     nss = [(), ('a',), ('a:b', ''), ('a', 'b')]
     prog, last = [], {}
+    thandles, tlast, tbad = [], {}, None
     steps = c.rng.randrange(5, 12)
     bad = None
     for si in range(steps):
       h = c.rng.randrange(len(hs))
-      kind = c.rng.choice(['write', 'write', 'suggest', 'read'])
+      kind = c.rng.choice(['write', 'write', 'suggest', 'read', 'twrite'])
+      if kind == 'twrite' and not thandles:
+        kind = 'suggest'
       try:
-        if kind == 'write':
+        if kind == 'twrite':
+          # a trial-level write through the Trial handle: ONE delta holding entries of several namespaces
+          tid, th = c.rng.choice(thandles)
+          md = vz.Metadata()
+          ents = []
+          for ns in c.rng.sample(nss, c.rng.randrange(1, len(nss) + 1)):
+            k, v = c.rng.choice(['k', 'j', '']), c.rng.choice(['', 'v', 't%d' % si])
+            md.abs_ns(vz.Namespace(ns))[k] = v
+            tlast[(tid, ns, k)] = v
+            ents.append([list(ns), k, v])
+          th.update_metadata(md)
+          prog.append(['trial-write', tid, ents])
+          tp = sv.GetTrial(vsp.GetTrialRequest(name='owners/o/studies/s/trials/%d' % tid))
+          stored = {(tuple(vz.Namespace.decode(kv.ns)), kv.key): kv.value for kv in tp.metadata}
+          wrong = sorted((ns, k, v, stored.get((ns, k))) for (t2, ns, k), v in tlast.items() if t2 == tid and stored.get((ns, k)) != v)
+          if wrong and bad is None:
+            tbad = (si, tid, wrong)
+        elif kind == 'write':
           ns, k, v = c.rng.choice(nss), c.rng.choice(['k', 'j', '']), c.rng.choice(['', 'v', 'w%d' % si])
           md = vz.Metadata()
           md.abs_ns(vz.Namespace(ns))[k] = v
@@ -871,6 +891,7 @@ def client_readback_stage(c):
           ts = hs[h].suggest(count=1, client_id='w%d' % h)
           for t in ts:
             t.complete(vz.Measurement(metrics={'obj': 0.5}))
+            thandles.append((t.id, t))
           prog.append(['suggest+complete', h])
         else:
           prog.append(['read', h])
@@ -894,8 +915,13 @@ def client_readback_stage(c):
       users = {(ns, k): v for ns, k, v in want if not (ns and ns[0].startswith('designer_policy'))}
       if bad is None and users != {(tuple(ns), k): ('str', v) for (ns, k), v in last.items()}:
         bad = (si, -1, sorted(users.items()), sorted(last.items()))
-      if bad is not None:
+      if bad is not None or tbad is not None:
         break
+    if tbad is not None:
+      si, tid, wrong = tbad
+      c.prop_fail('client-trial-metadata-write-lost',
+                  'after step %d (Trial(%d).update_metadata with one delta over several namespaces) the service stores for (namespace, key, written, stored): %s (backend %s)' % (
+                      si, tid, wrong[:4], backend), {'backend': backend, 'program': prog, 'trial': tid, 'wrong': [list(map(str, w)) for w in wrong]})
     c.count(len(prog), ('client-readback', pi) if sum(1 for x in prog if x[0] != 'read') >= 3 else None, kind='client-readback:' + backend)
     if bad is not None:
       si, hi, a, b = bad
